@@ -1,5 +1,5 @@
 From Coq Require Import ZArith QArith Qabs List Bool Lia FinFun.
-From PySDC Require Import Base.Tactics Base.Dyadic Base.Poly Model.FD.
+From PySDC Require Import Base.Tactics Base.Dyadic Base.Poly Model.FD Proofs.TransferOpsProofs.
 Import ListNotations.
 
 (* ---------------- get_steps ---------------------------------------------------------------- *)
@@ -141,6 +141,32 @@ Proof.
   apply (lin_from_diff_bound a 0%nat _ _ _ (length steps)).
   - intros j Hj. apply check_moment_sound. apply Hall. apply in_seq. lia.
   - lia.
+Qed.
+
+
+(* The same statement for a polynomial given by its coefficients c in the GLOBAL monomial basis: the
+   stencil applied to the samples p(x + s_i h) returns d! times the d-th Taylor coefficient of
+   t |-> p(x + t h) (= h^d p^(d)(x)), for every polynomial with at most n coefficients, every x, every h.
+   pshift (proved correct in TransferOpsProofs.peval_pshift) computes those Taylor coefficients. *)
+Theorem stencil_sound_global steps w d rtol :
+  check_stencil steps w d rtol = true ->
+  forall c, (length c <= length steps)%nat ->
+  forall x h,
+  Qabs (wsum (Qw w) (map (fun s => x + inject_Z s * h) steps) (peval c)
+        - inject_Z (zfact d) * nth d (pshift c x h) 0)
+  <= abs_lin_from 0 (pshift c x h) (stencil_tol steps w rtol).
+Proof.
+  intros Hc c Hlen x h.
+  pose proof (stencil_sound steps w d rtol Hc (pshift c x h)) as H.
+  rewrite length_pshift in H. specialize (H Hlen 0 1 ltac:(intro E; discriminate E)).
+  assert (E : wsum (Qw w) (map (fun s => x + inject_Z s * h) steps) (peval c)
+              == wsum (Qw w) (map (fun s : Z => 0 + inject_Z s * 1) steps) (fun y => peval (pshift c x h) ((y - 0) / 1))).
+  { replace (map (fun s : Z => x + inject_Z s * h) steps) with (map (fun t => x + t * h) (map inject_Z steps))
+      by (rewrite map_map; reflexivity).
+    replace (map (fun s : Z => 0 + inject_Z s * 1) steps) with (map (fun t => 0 + t * 1) (map inject_Z steps))
+      by (rewrite map_map; reflexivity).
+    rewrite !wsum_map. apply wsum_ext. intro t. rewrite peval_pshift. apply peval_ext. field. }
+  rewrite E. exact H.
 Qed.
 
 (* ---------------- periodic matrix: the three eye() terms give exactly the wrap pattern ------- *)
